@@ -84,6 +84,11 @@ func NewToUnicodeFile(csr charcode.CodeSpaceRange, data map[charcode.Code]string
 					if !needsList && lastByteOverflows(data[info[start].code], i-start-1) {
 						needsList = true
 					}
+					if !needsList && data[info[start].code] == "" {
+						// an empty destination cannot be incremented: codes
+						// without text are listed one by one
+						needsList = true
+					}
 
 					var values []string
 					if needsList {
